@@ -117,6 +117,7 @@ package parse
 //@   ensures iff(result == nil, sentTerminal(l))
 //@   ensures implies(result != nil, isstate(result) && statepre(result, l))
 //@   ensures implies(result != nil, measure(result, l) < old(measure(fn, l)))
+//@   ensures nsent(l.items) >= old(nsent(l.items))
 
 //@ func lexComment
 //@   implements type:stateFn
@@ -156,7 +157,8 @@ package parse
 //@   modifies mapof(l.interner.knownStrings)
 //@   nopanic
 //@   loop 0 invariant LI(l) && l.start == old(l.start) && sameText(l) && nsent(l.items) == old(nsent(l.items)) && l.pos >= old(l.pos)
-//@   loop 0 invariant l.pos > old(l.pos) || (l.pos < len(l.input) && nonterm(l.input[l.pos]))
+//@   loop 0 invariant iff(r == -1, l.pos >= len(l.input))
+//@   loop 0 invariant l.pos > old(l.pos) || (l.pos < len(l.input) && nonterm(l.input[l.pos]) && (r == l.input[l.pos] || r >= 128))
 //@   loop 0 decreases len(l.input) - l.pos
 
 //@ func lexQuote
